@@ -5,9 +5,9 @@ import (
 	"fmt"
 
 	sdk "github.com/cosmos/cosmos-sdk/types"
-	bank "github.com/cosmos/cosmos-sdk/x/bank/types"
 	bankkeeper "github.com/cosmos/cosmos-sdk/x/bank/keeper"
-	
+	bank "github.com/cosmos/cosmos-sdk/x/bank/types"
+
 	evmkeeper "github.com/palomachain/paloma/v2/x/evm/keeper"
 	evmtypes "github.com/palomachain/paloma/v2/x/evm/types"
 	skywaytypes "github.com/palomachain/paloma/v2/x/skyway/types"
@@ -64,7 +64,9 @@ func (e *E1) Disarm() { e.BankProxy.f = nil; e.EvmProxy.f = nil }
 var _ skywaytypes.BankKeeper = (*BankProxy)(nil)
 var _ skywaytypes.EVMKeeper = (*EvmProxy)(nil)
 
-func (b *BankProxy) GetSupply(ctx context.Context, denom string) sdk.Coin { return b.Real.GetSupply(ctx, denom) }
+func (b *BankProxy) GetSupply(ctx context.Context, denom string) sdk.Coin {
+	return b.Real.GetSupply(ctx, denom)
+}
 func (b *BankProxy) SendCoinsFromModuleToAccount(ctx context.Context, m string, r sdk.AccAddress, amt sdk.Coins) error {
 	if err := b.hit("bank.SendCoinsFromModuleToAccount"); err != nil {
 		return err
@@ -101,7 +103,9 @@ func (b *BankProxy) GetAllBalances(ctx context.Context, addr sdk.AccAddress) sdk
 func (b *BankProxy) GetDenomMetaData(ctx context.Context, denom string) (bank.Metadata, bool) {
 	return b.Real.GetDenomMetaData(ctx, denom)
 }
-func (b *BankProxy) SetDenomMetaData(ctx context.Context, md bank.Metadata) { b.Real.SetDenomMetaData(ctx, md) }
+func (b *BankProxy) SetDenomMetaData(ctx context.Context, md bank.Metadata) {
+	b.Real.SetDenomMetaData(ctx, md)
+}
 func (b *BankProxy) GetBalance(ctx context.Context, addr sdk.AccAddress, denom string) sdk.Coin {
 	return b.Real.GetBalance(ctx, addr, denom)
 }
@@ -142,4 +146,6 @@ func (p *EvmProxy) GetValidatorAddressByEthAddress(ctx context.Context, a skyway
 func (p *EvmProxy) HasAnySmartContractDeployment(ctx context.Context, c string) bool {
 	return p.Real.HasAnySmartContractDeployment(ctx, c)
 }
-func (p *EvmProxy) GetActiveChainNames(ctx context.Context) []string { return p.Real.GetActiveChainNames(ctx) }
+func (p *EvmProxy) GetActiveChainNames(ctx context.Context) []string {
+	return p.Real.GetActiveChainNames(ctx)
+}
